@@ -171,7 +171,7 @@ def collect_defaults():
 
 
 # scalar settings an echo may copy (none of them is mirrored in an op's "meta")
-ECHO_KEYS = {"N", "r_cut", "qrange", "qconst", "rdelta", "a", "c", "sigma", "gaussian_cut", "deltar", "cal_type", "onlypositive",
+ECHO_KEYS = {"N", "Nmax", "r_cut", "qrange", "qconst", "rdelta", "a", "c", "sigma", "gaussian_cut", "deltar", "cal_type", "onlypositive",
              "coarse_graining", "mean_norm", "eigvals", "transform_matrix", "average_complex", "shiftpotential"}
 
 
@@ -215,6 +215,7 @@ class World(WorldBase):
             "p_reuse": rng.choice([0.3, 0.6, 0.9]),
             "clients": rng.randint(1, 3),
             "p_echo": rng.choice([0.0, 0.15, 0.3]),
+            "p_edit": rng.choice([0.0, 0.0, 0.08, 0.15]),
             "huge": rng.random() < float(os.environ.get("VERIF_C18_HUGE", "0.01")),
             "faults": [],
         }
@@ -240,7 +241,8 @@ class World(WorldBase):
         self.last_call = {}   # adapter id -> canonical digest of its last result (repeat-call probe)
         self.recent = []      # the last few acknowledged call ops (for echoes)
         self.readers_of = {}  # path -> recent ops that read it
-        self.reissue = []     # ops to make again after the file they read was rewritten
+        self.reissue = []     # ops to make again after the file they read was rewritten / an argument was edited
+        self.edits = {}       # bundle root ('S3') -> ids of the client's in-place edits of its arrays, ascending
         self.server = None
         self.defaults = []
         if not replica:
@@ -324,6 +326,17 @@ class World(WorldBase):
                         raise Refuse(f"dependency {d} not in history")
                     need.add(d)
                     stack.append(self.history[d])
+        # what a client did to a pooled array in place between calls is part of the input: every
+        # edit made so far to a bundle the closure mentions is replayed, in order
+        roots = set()
+        for o in [op] + [self.history[i] for i in need]:
+            for n in self.refs(o.get("args", {})) + ([o["obj"]] if "obj" in o else []) + ([o["target"]] if "target" in o else []):
+                roots.add(n.split(".")[0])
+        for r in roots:
+            for i in self.edits.get(r, []):
+                if i != op.get("id"):
+                    need.add(i)
+                    need.add(self.base_of(r))
         return sorted(need)
 
     # ------------------------------------------------------------------- generation ----
@@ -336,9 +349,17 @@ class World(WorldBase):
             old = self.reissue.pop(0)
             if rng.random() < 0.7 and all(p in self.files for p in old.get("reads", {})) \
                     and all(n in self.pool for n in self.refs(old.get("args", {}))):
-                op = copy.deepcopy({k: v for k, v in old.items() if k not in ("fault", "id", "client")})
-                op["reads"] = {p: self.files[p]["src"] for p in old["reads"]}
-                self.ctx.probe("reissued_after_rewrite")
+                op = copy.deepcopy({k: v for k, v in old.items() if k not in ("fault", "id", "client", "why")})
+                op["reads"] = {p: self.files[p]["src"] for p in old.get("reads", {})}
+                try:
+                    self.precheck(op)
+                except Refuse:
+                    continue
+                self.ctx.probe("reissued_after_" + old.get("why", "rewrite"))
+                return self.stamp(op, rng)
+        if rng.random() < sw.get("p_edit", 0.0):
+            op = self.gen_edit(rng)
+            if op is not None:
                 return self.stamp(op, rng)
         for _try in range(60):
             echo = None
@@ -390,6 +411,83 @@ class World(WorldBase):
             return op
         return self.stamp(self.ad.gen_mk_snaps(self, rng), rng)
 
+    EDITABLE = {"qvector", "condition", "sigmas", "epsilons", "rcuts", "diameters", "masses", "radii", "series_C", "eigfreq",
+                "eigvec", "group", "gr_values"}
+
+    def gen_edit(self, rng):
+        """A client changes one of its own arrays in place between two calls (a scan over wave
+        vectors stepping one buffer, a field rescaled, two particles swapped) and then repeats a
+        recent call that was given that array: the result must be the one for the new content."""
+        cand = []          # (pool name, op that used it recently)
+        for o in self.recent:
+            for n in self.refs(o.get("args", {})):
+                e = self.pool.get(n)
+                if e is not None and e.depth == 0 and not e.tag.get("huge") and \
+                        (e.tag.get("role") in self.EDITABLE or (e.kind == "snaps" and e.tag.get("base") and not e.tag.get("reader"))):
+                    cand.append((n, o))
+        if cand and rng.random() < 0.8:
+            name, user = rng.choice(cand)
+        else:
+            names = sorted(n for n, e in self.pool.items() if e.depth == 0 and e.tag.get("role") in self.EDITABLE)
+            if not names:
+                return None
+            name, user = rng.choice(names), None
+        e = self.pool[name]
+        if e.kind == "snaps" and rng.random() < 0.6:
+            return None           # trajectories are edited rarely
+        if user is not None:
+            self.reissue.append(dict(user, why="edit"))
+        return {"op": "edit", "target": name, "how": rng.randrange(3), "seed": rng.randrange(1 << 30)}
+
+    def do_edit(self, op):
+        e = self.pool.get(op["target"])
+        if e is None:
+            raise Refuse("no pool entry to edit")
+        rng = np.random.default_rng(op["seed"])
+        v = e.value
+        how = op["how"]
+        role = e.tag.get("role")
+        if e.kind == "snaps":
+            t = int(rng.integers(0, v.nsnapshots))
+            pos = v.snapshots[t].positions
+            i, j = (int(x) for x in rng.choice(pos.shape[0], size=2, replace=False))
+            pos[[i, j]] = pos[[j, i]]                     # two particles trade places (stays inside the box)
+        elif e.kind == "dict":
+            for k in list(v):
+                v[k] = float(v[k]) * (1.0 + 0.03125 * (how + 1))
+        elif role == "qvector":
+            if how == 0:
+                v *= 2
+            elif how == 1:
+                v[:] = v[::-1].copy()
+            else:
+                v += np.sign(v).astype(v.dtype)         # every component one step further out; zeros stay
+        elif v.dtype == bool:
+            v[...] = np.roll(v, 1, axis=-1)
+        elif role in ("sigmas", "epsilons", "rcuts"):
+            v *= (1.0 + 0.03125 * (how + 1))                # stays symmetric
+        elif role == "condition" and v.ndim >= 2:
+            t = int(rng.integers(0, v.shape[0]))
+            if how == 0:
+                v[t] *= 1.5
+            elif how == 1:
+                v[t] = np.roll(v[t], 1, axis=0)
+            else:
+                v += 0.25
+        else:
+            if how == 0:
+                v *= 1.25
+            else:
+                v += 0.125
+        if not self.replica:
+            e.base = [(lab, copy.deepcopy(x)) for lab, x in snaps_arrays(v)] if e.kind == "snaps" else copy.deepcopy(v)
+        self.history[op["id"]] = op
+        root = op["target"].split(".")[0]
+        self.edits[root] = sorted(set(self.edits.get(root, []) + [op["id"]]))
+        self.ctx.probe("client_edits_in_place")
+        self.ctx.probe(f"edit:{role or e.kind}")
+        return f"{op['target']} how={how}"
+
     def stamp(self, op, rng):
         op["id"] = self.ctx.step
         op["client"] = "analyst-" + "ABC"[rng.randrange(self.swarm["clients"])]
@@ -402,6 +500,8 @@ class World(WorldBase):
             return self.do_mk_snaps(op)
         if k == "call":
             return self.do_call(op)
+        if k == "edit":
+            return self.do_edit(op)
         raise HarnessError(f"unknown op {k}")
 
     def do_mk_snaps(self, op):
